@@ -100,6 +100,33 @@ def rule_R14(ctx, rep, config="c-lib"):
                                 continue
                             der.add(u.id)
                             work.append(u.id)
+                # the pointer parked in a local cell (a field of a local struct) and read back after the growth
+                for d in der:
+                    for S in f.uses().get(d, []):
+                        if S.op != "store" or S.ops[0].get("k") != "i" or S.ops[0].get("v") != d:
+                            continue
+                        cell = resolve_addr(f, S.ops[1])
+                        if cell.root[0] != "alloca" or any(st[0] != "f" for st in cell.steps):
+                            continue
+                        ckey = (cell.root, tuple(cell.steps))
+                        cell_stores = [x for x in f.all_insts() if x.op == "store" and (lambda q: (q.root, tuple(q.steps)) == ckey)(resolve_addr(f, x.ops[1]))]
+                        if not path_exists(f, S, g, [x for x in cell_stores if x is not S] + finishes):
+                            continue
+                        for L in f.all_insts():
+                            if L.op != "load" or (lambda q: (q.root, tuple(q.steps)) != ckey)(resolve_addr(f, L.ops[0])):
+                                continue
+                            if not path_exists(f, g, L, cell_stores):
+                                continue
+                            for u in f.uses().get(L.id, []):
+                                deref = (u.op == "load" and strip_casts(f, u.ops[0]).get("v") == L.id) or (u.op == "store" and strip_casts(f, u.ops[1]).get("v") == L.id) or \
+                                        (u.op == "getelementptr" and any((w.op == "load" and strip_casts(f, w.ops[0]).get("v") == u.id) or
+                                                                        (w.op == "store" and strip_casts(f, w.ops[1]).get("v") == u.id) for w in f.uses().get(u.id, [])))
+                                if not deref:
+                                    continue
+                                nptr += 1
+                                rep.violation("R14", "%s/%s" % (f.name, cont), "a pointer into `%s' is saved in a local before an operation that may move the container and "
+                                              "dereferenced afterwards: dangling after the realloc / segment change" % cont, where=u.where(),
+                                              witness=["pointer saved at " + S.where(), "container may move at " + g.where(), "read back at " + L.where(), "dereferenced at " + u.where()])
                 for d in der:
                     di = f.insts[d]
                     for u in f.uses().get(d, []):
